@@ -35,6 +35,51 @@ type sys struct {
 	viol   []vrt.Violation
 	curOp  string
 	curEnv string // env id the current operation is about ("" = none / cleanup)
+	// ownership watch (concurrent phase): task -> environment it was last seen locked by, and the
+	// environments some caller has asked to destroy
+	owned      map[string]string
+	slow       bool // concurrent phase: launches take a virtual second to report TASK_RUNNING
+	destroying map[string]bool
+}
+
+// watchOwned: "control, release and kill operations issued for one environment never affect tasks
+// owned by another, and cleanup of unowned tasks never touches owned ones". A task seen locked by
+// environment X may leave the roster, or X's ownership, only through X's own release: while X is
+// being destroyed on request or torn down after a failure (X then is in ERROR or DONE, or gone).
+// Polled at every framework call reaching the master, after every request and at the end.
+func (s *sys) watchOwned() {
+	if s.w == nil || s.w.Core == nil {
+		return
+	}
+	if s.owned == nil {
+		s.owned = map[string]string{}
+	}
+	now := s.w.TaskOwners()
+	var envs map[string]string
+	for tid, was := range s.owned {
+		if cur, ok := now[tid]; ok && cur == was {
+			continue
+		}
+		delete(s.owned, tid)
+		if s.destroying[was] {
+			continue
+		}
+		if envs == nil {
+			envs = s.w.Envs()
+		}
+		switch st := envs[was]; st {
+		case "STANDBY", "DEPLOYED", "CONFIGURED", "RUNNING":
+			if alive := s.w.M.Tasks[tid]; alive != nil && alive.Alive {
+				cur, inRoster := now[tid]
+				s.fail("owned-task-taken-from-untouched-environment", "task %s (alive at the master) was locked by environment %s, which is in %s and which nobody asked to destroy; now in roster=%v owner=%q", tid, was, st, inRoster, cur)
+			}
+		}
+	}
+	for tid, o := range now {
+		if o != "" {
+			s.owned[tid] = o
+		}
+	}
 }
 
 func (s *sys) fail(clause, f string, a ...any) {
@@ -48,6 +93,9 @@ func newSys() *sys {
 		if s.w == nil || s.w.Core == nil {
 			return
 		}
+		if s.curOp == "concurrent-phase" {
+			s.watchOwned()
+		}
 		switch c.Type {
 		case "KILL":
 			owner := s.w.TaskOwners()[c.Task]
@@ -60,6 +108,12 @@ func newSys() *sys {
 				s.fail("command-to-task-owned-by-another-environment:"+opKind(s.curOp), "%s sent to task %s owned by %s while operating on %s", c.Detail, c.Task, owner, s.curEnv)
 			}
 		}
+	}
+	m.Behaviour = func(t *coresim.SimTask, kind string) coresim.Outcome {
+		if kind == "launch" && s.slow {
+			return coresim.SlowLaunch
+		}
+		return coresim.OK
 	}
 	s.w = coresim.NewWorld(m)
 	return s
@@ -289,15 +343,26 @@ type pairSpec struct {
 	name   string
 	setup  []string
 	t1, t2 []string
+	slow   bool // tasks launched in the concurrent phase take a virtual second to come up: the other caller's whole request falls into the window in which they are owned but not yet active
 }
 
 var pairs = []pairSpec{
-	{"createA||createC", nil, []string{"createA"}, []string{"createC"}},
-	{"createA||destroyB", []string{"createB"}, []string{"createA"}, []string{"destroyB"}},
-	{"cleanupAll||createA", []string{"createB", "destroyKeepB"}, []string{"cleanupAll"}, []string{"createA"}},
-	{"destroyA||startB", []string{"createA", "createB"}, []string{"destroyA"}, []string{"startB"}},
-	{"destroyA||cleanupAll", []string{"createA", "createB"}, []string{"destroyA"}, []string{"cleanupAll"}},
-	{"destroyA||createC", []string{"createA"}, []string{"destroyA"}, []string{"createC"}},
+	{"createA||createC", nil, []string{"createA"}, []string{"createC"}, false},
+	{"createA||destroyB", []string{"createB"}, []string{"createA"}, []string{"destroyB"}, false},
+	{"cleanupAll||createA", []string{"createB", "destroyKeepB"}, []string{"cleanupAll"}, []string{"createA"}, false},
+	{"destroyA||startB", []string{"createA", "createB"}, []string{"destroyA"}, []string{"startB"}, false},
+	{"destroyA||cleanupAll", []string{"createA", "createB"}, []string{"destroyA"}, []string{"cleanupAll"}, false},
+	{"destroyA||createC", []string{"createA"}, []string{"destroyA"}, []string{"createC"}, false},
+	// the same overlaps with the callers in the other order (the default schedule runs caller1 first)
+	{"createA||cleanupAll", []string{"createB", "destroyKeepB"}, []string{"createA"}, []string{"cleanupAll"}, false},
+	{"destroyB||createA", []string{"createB"}, []string{"destroyB"}, []string{"createA"}, false},
+	{"createB||destroyA", []string{"createA"}, []string{"createB"}, []string{"destroyA"}, false},
+	// ... and with slow launches
+	{"slow:createA||destroyB", []string{"createB"}, []string{"createA"}, []string{"destroyB"}, true},
+	{"slow:createA||cleanupAll", []string{"createB", "destroyKeepB"}, []string{"createA"}, []string{"cleanupAll"}, true},
+	{"slow:createA||createC", nil, []string{"createA"}, []string{"createC"}, true},
+	{"slow:createC||createA", nil, []string{"createC"}, []string{"createA"}, true},
+	{"slow:createA||startB", []string{"createB"}, []string{"createA"}, []string{"startB"}, true},
 }
 
 func pairScenario(p pairSpec, q, t vrt.Bounds) *vrt.Scenario {
@@ -311,10 +376,17 @@ func pairScenario(p pairSpec, q, t vrt.Bounds) *vrt.Scenario {
 			for _, op := range p.setup {
 				s.apply(op)
 			}
+			s.slow = p.slow
 			var wg vrt.WaitGroup
 			wg.Add(2)
 			run := func(name string, ops []string) {
 				vrt.GoFG(name, func() {
+					if p.slow && name == "caller2" {
+						// the second request arrives half a virtual second after the first: by default
+						// inside the second during which the first one's tasks are launched and owned
+						// but have not reported TASK_RUNNING yet
+						vrt.Sleep(500 * time.Millisecond)
+					}
 					for _, op := range ops {
 						s.applyConcurrent(op)
 					}
@@ -328,6 +400,7 @@ func pairScenario(p pairSpec, q, t vrt.Bounds) *vrt.Scenario {
 			vrt.Quiesce("settle")
 			s.curOp = "final"
 			s.invariants()
+			s.watchOwned()
 			vrt.Logf("%s -> %s", p.name, s.key())
 		},
 		Check: func(x *vrt.Exec) []vrt.Violation {
@@ -342,6 +415,7 @@ func pairScenario(p pairSpec, q, t vrt.Bounds) *vrt.Scenario {
 // applyConcurrent: like apply but without per-operation ownership attribution (two operations overlap).
 func (s *sys) applyConcurrent(op string) {
 	s.curOp, s.curEnv = "concurrent-phase", ""
+	s.watchOwned()
 	envs := s.w.Envs()
 	slot := op[len(op)-1:]
 	id := s.ids[slot]
@@ -355,10 +429,15 @@ func (s *sys) applyConcurrent(op string) {
 	case strings.HasPrefix(op, "start") && live:
 		s.w.Control(id, pb.ControlEnvironmentRequest_START_ACTIVITY)
 	case strings.HasPrefix(op, "destroy") && live:
+		if s.destroying == nil {
+			s.destroying = map[string]bool{}
+		}
+		s.destroying[id] = true
 		s.w.Destroy(id, strings.Contains(op, "Force"), true, strings.Contains(op, "Keep"))
 	case op == "cleanupAll":
 		s.w.Cleanup(nil)
 	}
+	s.watchOwned()
 }
 
 func main() {
